@@ -305,6 +305,9 @@ def run(check, an: Analysis):
                    'every path of the task wrapper ends normally (%d paths)'
                    % len(an.paths(wrapper)),
                    path=rules.path_lines(escaping[0]) if escaping else None)
+    # dismissing one child (close, cancel) is no failure: the scope and the siblings go on
+    from . import c06
+    c06.check_failed_flag(check, an, 'F')
     # unsubscribing what was subscribed cannot fail (closing a scope starts with it)
     from ..report import SubCheck
     from . import c03
